@@ -221,6 +221,23 @@ func URLVerdict(s string) (pass, certain bool) {
 	if !strings.Contains(s, ":") {
 		return false, true // no scheme possible
 	}
+	// a URL contains no control characters (RFC 3986) and starts with its scheme: a value that is a URL only after
+	// trimming is not a URL
+	for i := 0; i < len(s) && s[i] != '#'; i++ {
+		if s[i] < 0x20 || s[i] == 0x7f {
+			return false, true
+		}
+	}
+	if s[0] == ' ' {
+		return false, true
+	}
+	if k := strings.IndexByte(s, '#'); k >= 0 {
+		for i := k; i < len(s); i++ {
+			if s[i] < 0x20 || s[i] == 0x7f {
+				return false, false // (what a fragment may hold is left to the implementation)
+			}
+		}
+	}
 	// scheme "://" host [":" port] ["/" path] ["?" query] ["#" fragment]   (RFC 3986: the fragment may follow any of them)
 	i := strings.Index(s, "://")
 	if i <= 0 {
